@@ -1647,6 +1647,9 @@ impl<'a> Interp<'a> {
                 self.feats.errs += 1;
                 self.note_events(&log);
                 self.smap_on = false;
+                // nothing in these histories closes the cache: an insert has no reason to fail
+                // (the unwrapping variants turn the same failure into a panic in the caller)
+                self.fail("insert_returned_err", &["C20"], format!("{} of key {} failed: {}", if only_update { "insert_if_present" } else { "insert" }, k, e));
                 self.desync(&format!("insert returned Err({})", e));
                 return;
             }
